@@ -141,6 +141,37 @@ func libWalkDetects(g *ref.Graph) bool {
 	return detect(g.Root, 0)
 }
 
+// allOfCycle: some type is its own (transitive) allOf parent. That is decided by a separate
+// mechanism (error 703) which the recorded finding about the recursion walk does not cover.
+func allOfCycle(g *ref.Graph) bool {
+	parents := func(n *ref.SNode) []string {
+		if r := n.Rule("allOf"); r != nil {
+			return r.AllOf
+		}
+		return nil
+	}
+	state := map[string]int{}
+	var dfs func(string) bool
+	dfs = func(u string) bool {
+		state[u] = 1
+		if t := g.Types[u]; t != nil {
+			for _, v := range parents(t) {
+				if state[v] == 1 || (state[v] == 0 && dfs(v)) {
+					return true
+				}
+			}
+		}
+		state[u] = 2
+		return false
+	}
+	for name := range g.Types {
+		if state[name] == 0 && dfs(name) {
+			return true
+		}
+	}
+	return false
+}
+
 type outcome struct {
 	class    string
 	accepted bool
@@ -212,7 +243,7 @@ func check(t run.TB, c Case) outcome {
 	case "B":
 		o.judged = true
 		if cr.OK {
-			if !libWalkDetects(g) && run.MatchKnown("C09-cycle-beyond-first-level") {
+			if !allOfCycle(g) && !libWalkDetects(g) && run.MatchKnown("C09-cycle-beyond-first-level") {
 				o.judged = false
 			} else {
 				run.Fail(t, chk, c, "the root requires a type on a cycle of required references (no finite inhabitant) but Check accepts")
@@ -271,10 +302,26 @@ func TestTypeGraphs(t *testing.T) {
 	rapid.Check(t, func(t *rapid.T) {
 		gc := gen.GenRefGraph(t, "g")
 		gc.G.KeysOptional = rapid.IntRange(0, 5).Draw(t, "opt") == 0
+		selfRoot := ""
+		if rapid.IntRange(0, 3).Draw(t, "selfRoot") == 0 {
+			// the checked schema is itself one of the named types (s.AddType("@t0", s))
+			selfRoot = gc.Order[rapid.IntRange(0, len(gc.Order)-1).Draw(t, "selfRootIdx")]
+			if gc.G.Types[selfRoot].Kind == ref.SLit {
+				selfRoot = ""
+			} else {
+				gc.G.Root = gc.G.Types[selfRoot]
+				gc.G.KeysOptional = false
+			}
+		}
 		pg := gc.Print(nil)
-		sp := lib.Spec{Schema: pg.Schema, KeysOptional: gc.G.KeysOptional}
+		sp := lib.Spec{Schema: pg.Schema, KeysOptional: gc.G.KeysOptional, SelfName: selfRoot}
 		for _, ty := range pg.Types {
-			sp.Types = append(sp.Types, lib.Named{Name: ty.Name, Text: ty.Text})
+			if ty.Name != selfRoot {
+				sp.Types = append(sp.Types, lib.Named{Name: ty.Name, Text: ty.Text})
+			}
+		}
+		if selfRoot != "" {
+			run.Label("root-is-a-named-type")
 		}
 		c := Case{Spec: sp, Graph: gc.G}
 		if len(gc.G.Missing()) == 0 {
